@@ -378,6 +378,30 @@ def run_case(case):
             if again is not cls:
                 violations.append({'mechanism': 'c17:specialisation-not-identical',
                                    'msg': '%s spelled in reverse order is a different class' % text})
+    # ---- equal specialisations are the identical class - also across simulations: handlers
+    # built before a simulation (module level constants) meet failures built inside one ----
+    kept = [(handler, handler_class(handler)) for handler in list(handler_space(tier))[
+        case['index'] % 7::max(1, len(list(handler_space(tier))) // 6)] if handler[0] == 'spec']
+    built_inside = []
+
+    async def inside():
+        for handler, _ in kept:
+            built_inside.append(handler_class(handler))
+        built_inside.append(type(build_instance(('C', raised, False))))
+    import usim
+    usim.run(inside())
+    after_run = [handler_class(handler) for handler, _ in kept]
+    stats['type_identity_checks'] += 2 * len(kept) + 1
+    for (handler, before), during, after in zip(kept, built_inside, after_run):
+        if during is not before or after is not before:
+            violations.append({'mechanism': 'c17:specialisation-not-identical',
+                               'msg': '%s built before, inside and after a simulation is not one '
+                                      'and the same class' % describe(('C', handler[1], handler[2]))})
+            break
+    if built_inside and built_inside[-1] is not type(exc):
+        violations.append({'mechanism': 'c17:specialisation-not-identical',
+                           'msg': 'the type of %s built inside a simulation differs from the one '
+                                  'built outside' % raised_text})
     # keep one violation per mechanism per case (the space is large)
     seen = {}
     for vio in violations:
